@@ -90,7 +90,9 @@ func sdsNeedsPush(forced bool, updates model.XdsUpdates) bool {
 // Invalid resource names are ignored
 func (s *SecretGen) parseResources(names []string, proxy *model.Proxy) []SecretResource {
 	res := make([]SecretResource, 0, len(names))
-	pkpConf := (*mesh.ProxyConfig)(proxy.Metadata.ProxyConfig).GetPrivateKeyProvider()
+	// generate() falls back to the mesh-wide default ProxyConfig when the proxy did not send one;
+	// the cache key must be derived from the same effective private key provider.
+	pkpConf := proxy.Metadata.ProxyConfigOrDefault(s.meshConfig.GetDefaultConfig()).GetPrivateKeyProvider()
 	pkpConfHashStr := ""
 	if pkpConf != nil {
 		pkpConfHashStr = strconv.FormatUint(xxhashv2.Sum64String(pkpConf.String()), 10)
